@@ -115,9 +115,13 @@ def main():
                 for ob in fn.get("obligations", []):
                     if ob["status"] == "failed" and not (ob.get("prop") and loops_ok):
                         # refuted auxiliary clause (frame, helper exactness, loop invariant, safety) or a property clause whose
-                        # loop invariants no longer hold: the PROOF is broken, which is not a verdict about the property
-                        undecided.append({"obligation": ob["name"], "site": fn["name"],
-                                          "reason": "auxiliary obligation refuted (proof broken, layer B decides): " + ob.get("solver_output", "")[:200]})
+                        # loop invariants no longer hold: the PROOF is broken, which is not by itself a verdict about the property.
+                        # The counter-model is still replayed on the real code: if the real function violates a property
+                        # clause on the model's inputs it is a violation, otherwise the obligation stays undecided (layer B decides).
+                        violations.append({"layer": "P", "site": fn["name"], "clause": ob["name"], "aux": True,
+                                           "witness_class": ob.get("witness_class", "model"),
+                                           "message": ob.get("message", ""), "model": ob.get("model"),
+                                           "replay_input": ob.get("replay_input"), "solver_output": ob.get("solver_output", "")})
                     elif ob["status"] == "failed":
                         violations.append({"layer": "P", "site": fn["name"], "clause": ob["name"],
                                            "witness_class": ob.get("witness_class", "model"),
@@ -156,7 +160,15 @@ def main():
             if res is not None:
                 v["reproduced"] = bool(res.get("reproduced"))
                 v["native"] = res
-    # a P failure that did not replay but where layer B has a violation at the same site counts as reproduced by B
+    kept = []
+    for v in violations:
+        if v.get("aux") and not v.get("reproduced"):
+            undecided.append({"obligation": v["clause"], "site": v["site"],
+                              "reason": "auxiliary obligation refuted but the counter-model does not violate the property on the real code "
+                                        "(proof broken, layer B decides): " + (v.get("solver_output") or "")[:160].replace("\n", " ")})
+        else:
+            kept.append(v)
+    violations = kept
     # ---------------- report ----------------
     lines = []
     n_viol = 0
